@@ -134,8 +134,24 @@ Definition task_done (s : state) : state :=
 
 (* logResult with a failure status sets progress.failed; the output monitor (handleOutput) later calls state.Stop()
    unless --keep_going, and always for a ParseFailed result: `stopreq` is that pending call, LStop performs it. *)
+(* logResult's statements in source order (Gen/StateOrder.v): the failure flags count for the exit status only if they
+   are stored before the result is published - the receiver of a failure result stops the build and main reads the
+   flags as soon as the workers are done - and buildFailed/testFailed before failed (toExitCode reads failed first). *)
+Definition lr_eqb (a b : lr_stmt) : bool :=
+  match a, b with LRTime, LRTime | LRStoreSpecific, LRStoreSpecific | LRStoreFailed, LRStoreFailed | LRSend, LRSend => true | _, _ => false end.
+Fixpoint lr_index (x : lr_stmt) (p : list lr_stmt) : option nat :=
+  match p with
+  | [] => None
+  | y :: r => if lr_eqb x y then Some 0 else match lr_index x r with Some k => Some (S k) | None => None end
+  end.
+Definition flags_before_send (p : list lr_stmt) : bool :=
+  match lr_index LRStoreSpecific p, lr_index LRStoreFailed p, lr_index LRSend p with
+  | Some a, Some b, Some c => Nat.ltb a b && Nat.ltb b c
+  | _, _, _ => false
+  end.
+
 Definition log_fail (g : graph) (s : state) (parse : bool) : state :=
-  let s := set_failed s true in
+  let s := set_failed s (flags_before_send logresult_prog || failed s) in
   if negb (g_keep_going g) || parse then set_stopreq s true else s.
 
 (* addPendingParse *)
@@ -455,20 +471,25 @@ Fixpoint pass (g : graph) (hints late : list nat) (cs : list label) (s : state) 
   | [] => (s, acc, n)
   | l :: r => if eager g hints late s l && enabled g s l then pass g hints late r (apply g s l) (l :: acc) (S n) else pass g hints late r s acc n
   end.
-Fixpoint saturate (g : graph) (hints late : list nat) (fuel : nat) (s : state) (acc : list label) : state * list label :=
+Fixpoint saturate_cs (g : graph) (hints late : list nat) (cs : list label) (fuel : nat) (s : state) (acc : list label) : state * list label :=
   match fuel with
   | O => (s, acc)
   | S f =>
-      match pass g hints late (candidates g) s acc 0 with
-      | (s', acc', S _) => saturate g hints late f (normalize g s') acc'
+      match pass g hints late cs s acc 0 with
+      | (s', acc', S _) => saturate_cs g hints late cs f (normalize g s') acc'
       | (s', acc', O) =>
           (* nothing else to do: let one parse finish, or one parse task claim its package *)
           match find (fun l => eager g hints late s' l && enabled g s' l) (parse_oks g ++ claims g late) with
-          | Some l => saturate g hints late f (normalize g (apply g s' l)) (l :: acc')
+          | Some l => saturate_cs g hints late cs f (normalize g (apply g s' l)) (l :: acc')
           | None => (s', acc')
           end
       end
   end.
+Definition saturate (g : graph) (hints late : list nat) (fuel : nat) (s : state) (acc : list label) : state * list label :=
+  saturate_cs g hints late (candidates g) fuel s acc.
+(* the same without LForward: used for the part of a run whose results never reached the results channel *)
+Definition saturate_nf (g : graph) (hints late : list nat) (fuel : nat) (s : state) (acc : list label) : state * list label :=
+  saturate_cs g hints late (tl (candidates g)) fuel s acc.
 
 Definition take (g : graph) (s : state) (acc : list label) (l : label) : option (state * list label) :=
   if enabled g s l then Some (normalize g (apply g s l), l :: acc) else None.
@@ -533,6 +554,76 @@ Definition finish (g : graph) (hints late : list nat) (s : state) (acc : list la
   | None => None
   end.
 
+(* The observed events are only what forwardResults had moved to the results channel when Run called CloseResults: a
+   PREFIX of the logged stream (`reported`).  The rest of the run - the lost tail - is reconstructed here: first the
+   commands the action log shows (started / ended / failed) but whose results are missing from the stream (`tail`, from
+   the harness), then any further steps up to LExitRun, never LForward.  `exit_first`: end the run as soon as LExitRun is
+   enabled; otherwise take every result-logging step that is enabled first. *)
+Definition wait_head (s : state) (t : nat) : option nat := match asy s t with AWait (d :: _) => Some d | _ => None end.
+Fixpoint walk_heads (s : state) (fuel : nat) (t : nat) : option nat :=
+  match fuel with
+  | O => Some t
+  | S f => match wait_head s t with Some d => walk_heads s f d | None => None end
+  end.
+Fixpoint collect_cycle (s : state) (fuel : nat) (x cur : nat) (acc : list nat) : option (list nat) :=
+  match fuel with
+  | O => None
+  | S f => match wait_head s cur with
+           | Some d => if Nat.eqb d x then Some (rev (cur :: acc)) else collect_cycle s f x d (cur :: acc)
+           | None => None
+           end
+  end.
+(* a cycle of blocked WaitForBuild calls, if there is one *)
+Definition find_cycle (g : graph) (s : state) : option (list nat) :=
+  let n := g_n g in
+  fold_right (fun t r => match r with
+                         | Some c => Some c
+                         | None => match walk_heads s n t with Some x => collect_cycle s (S n) x x [] | None => None end
+                         end) None (seq 0 n).
+
+Definition tail_labels (g : graph) (s : state) : list label :=
+  let ids := seq 0 (g_n g) in
+  [LStop] ++ (if closed s then map LSendTask (sendq s) else []) ++
+  flat_map (fun t => (match wait_head s t with Some d => [LDepFailed t d] | None => [] end) ++ [LAsyncQueueDep t; LAsyncBeginWait t]) ids ++
+  match find_cycle g s with Some c => [LTimerCycleCheck c] | None => [] end.
+
+Fixpoint tail_free (g : graph) (hints late : list nat) (exit_first : bool) (fuel : nat) (s : state) (acc : list label) : option (state * list label) :=
+  match fuel with
+  | O => None
+  | S f =>
+      let '(s1, acc1) := saturate_nf g hints late (fuel_of g) s acc in
+      let next := find (fun l => enabled g s1 l) (tail_labels g s1) in
+      match (if exit_first then None else next), enabled g s1 LExitRun with
+      | None, true => take g s1 acc1 LExitRun
+      | _, _ =>
+          match next with
+          | Some l => match take g s1 acc1 l with Some (s2, acc2) => tail_free g hints late exit_first f s2 acc2 | None => None end
+          | None => None
+          end
+      end
+  end.
+
+Fixpoint tail_cmds (g : graph) (hints late : list nat) (s : state) (acc : list label) (tail : list (nat * bool)) : option (state * list label) :=
+  match tail with
+  | [] => Some (s, acc)
+  | (t, ok) :: r =>
+      let '(s1, acc1) := saturate_nf g hints late (fuel_of g) s acc in
+      let start := if mem t (building s1) then [] else
+                   (if mem t (sendq s1) then [LSendTask t] else []) ++
+                   (if mem t (sendq s1) || mem t (actq s1) then [LWorkerTake t] else []) ++ [LBuildStart t] in
+      match take_all g s1 acc1 (start ++ [if ok then LBuildOk t Built else LBuildFail t]) with
+      | Some (s2, acc2) => tail_cmds g hints late s2 acc2 r
+      | None => None
+      end
+  end.
+
+Definition finish_tail (g : graph) (hints late : list nat) (exit_first : bool) (tail : list (nat * bool)) (s : state) (acc : list label) : option (state * list label) :=
+  let '(s1, acc1) := saturate g hints late (fuel_of g) s acc in      (* everything observed has been forwarded *)
+  match tail_cmds g hints late s1 acc1 tail with
+  | Some (s2, acc2) => tail_free g hints late exit_first (4 * g_n g + 8) s2 acc2
+  | None => None
+  end.
+
 Definition res_eqb (a b : res) : bool :=
   match a, b with
   | RBuilt x, RBuilt y => st_eqb x y
@@ -556,17 +647,26 @@ Fixpoint obs_match_all (os : list obs) (es : list ev) : bool :=
 (* the labels of an accepting run for the observed events, if the search finds one *)
 Definition late_of (g : graph) (es : list ev) : list nat :=
   flat_map (fun e => match e with EvErr l [] => if g_decl g l then [] else [l] | _ => [] end) es.
-Definition witness (g : graph) (hints : list nat) (es : list ev) : option (list label) :=
+(* strategy 0: nothing was lost; 1 and 2: a lost tail, ending as early / as late as possible *)
+Definition witness (g : graph) (hints : list nat) (es : list ev) (tail : list (nat * bool)) (strategy : nat) : option (list label) :=
   let late := late_of g es in
   match complete g hints late (init g) [] es with
-  | Some (s, acc) => match finish g hints late s acc with Some (_, acc') => Some (rev acc') | None => None end
+  | Some (s, acc) =>
+      let r := match strategy, tail with
+               | O, [] => finish g hints late s acc
+               | O, _ => None
+               | 1, _ => finish_tail g hints late true tail s acc
+               | _, _ => finish_tail g hints late false tail s acc
+               end in
+      match r with Some (_, acc') => Some (rev acc') | None => None end
   | None => None
   end.
 
-(* accepted: a run of the LTS from the initial state, ending with LExitRun, whose reported stream is exactly the observed event
-   sequence and whose exit status (non-zero iff progress.failed) is the observed one *)
-Definition accepts (g : graph) (hints : list nat) (es : list ev) (exit_nonzero : bool) : bool :=
-  match witness g hints es with
+(* accepted: a run of the LTS from the initial state, ending with LExitRun, whose reported stream (what had been forwarded
+   to the results channel when the run ended - a prefix of the log) is exactly the observed event sequence and whose exit
+   status (non-zero iff progress.failed) is the observed one *)
+Definition accepts_with (g : graph) (hints : list nat) (es : list ev) (tail : list (nat * bool)) (exit_nonzero : bool) (strategy : nat) : bool :=
+  match witness g hints es tail strategy with
   | Some ls =>
       match run g (init g) ls with
       | Some s => exited s && obs_match_all (rev (reported s)) es && Bool.eqb (failed s) exit_nonzero
@@ -574,14 +674,17 @@ Definition accepts (g : graph) (hints : list nat) (es : list ev) (exit_nonzero :
       end
   | None => false
   end.
+Definition accepts (g : graph) (hints : list nat) (es : list ev) (tail : list (nat * bool)) (exit_nonzero : bool) : bool :=
+  accepts_with g hints es tail exit_nonzero 0 || accepts_with g hints es tail exit_nonzero 1 || accepts_with g hints es tail exit_nonzero 2.
 
 (* ---- correspondence cases ---- *)
 Inductive case :=
-| CRun (g : graph) (hints : list nat) (events : list ev) (exit_nonzero : bool).
+| CRun (g : graph) (hints : list nat) (events : list ev) (tail : list (nat * bool)) (exit_nonzero : bool).
+  (* tail: commands that ran according to the action log but have no final result in the observed stream: (target, succeeded) *)
 
 Definition check (c : case) : bool :=
   match c with
-  | CRun g h es x => accepts g h es x
+  | CRun g h es tl x => accepts g h es tl x
   end.
 
 (* graphs as the harness prints them *)
